@@ -405,6 +405,54 @@ func scenarios(w *bufio.Writer) {
 		n.recv(req)
 		endRun(w, mon, n)
 	}
+	// C05 (sixth-round seeded change C05e): a backup takes part in height 1 (it notes when the creation of that block started), then
+	// its ledger is synchronised past heights 2 and 3 a minute later and it is re-initialised for height 4: the first timer of
+	// that height is the full one - nothing remembered from height 1 may shorten it
+	{
+		mon := begin(4, -1, 0)
+		n := mkScenNode(mon, 2, mkVals(4), -1, w)
+		n.start(0)
+		n.recv(&Payload{dbft.PrepareRequestType, 1, 0, 1, prepReq{5000000, 9, nil}})
+		n.tm.now = n.tm.now.Add(timeDur(60000000000))
+		n.height = 3
+		n.tip = toks(8, n.height)
+		n.op("R 0", func() { n.d.Reset(0) })
+		mon.tick("C05")
+		if d := n.tm.deadline.Sub(n.tm.now); !n.tm.armed || d != 2*n.tpb {
+			mon.nhit(n, "C05", "timer-shortened-by-an-earlier-height", fmt.Sprintf("node 2, a backup re-initialised for height %d after a ledger synchronisation, armed its timer for %v (armed=%v), the full interval is %v", n.d.BlockIndex, d, n.tm.armed, 2*n.tpb))
+		}
+		endRun(w, mon, n)
+	}
+	// C07 (sixth-round seeded change C07e): anti-MEV, four honest nodes; node 3 receives everything of height 1 except the Commits, so
+	// it processes the pre-block but never accepts the block itself; the ledger brings it to height 2, where the round is
+	// delivered in full: its Commit at height 2 must again wait for the pre-block callback of height 2
+	{
+		mon := begin(4, 0, 0)
+		nodes := make([]*node, 4)
+		for i := range nodes {
+			nodes[i] = mkScenNode(mon, i, mkVals(4), 0, w)
+			nodes[i].height = 0
+		}
+		for _, n := range nodes {
+			n.start(0)
+		}
+		pump(nodes, 400, func(from int, p *Payload, to int) bool { return to == 3 && p.T == dbft.CommitType })
+		if nodes[0].height == 1 && nodes[3].height == 0 {
+			n3 := nodes[3]
+			n3.height, n3.tip, n3.lastTS = nodes[0].height, nodes[0].tip, nodes[0].lastTS
+			n3.out = nil
+			n3.op(fmt.Sprintf("R %d", n3.lastTS), func() { n3.d.Reset(n3.lastTS) })
+			p2 := nodes[2] // primary of height 2
+			for _, n := range nodes {
+				n.tm.now = p2.tm.deadline
+			}
+			p2.tm.armed = false
+			p2.op("T 2 0", func() { p2.d.OnTimeout(2, 0) })
+			pump(nodes, 400, nil)
+		}
+		fmt.Fprintf(w, "NOTE C07 stale pre-block flag: heights %d %d %d %d\n", nodes[0].height, nodes[1].height, nodes[2].height, nodes[3].height)
+		endRun(w, mon, nodes...)
+	}
 }
 
 // pump delivers every broadcast payload to every other node in FIFO order until quiet (or max deliveries).
